@@ -555,8 +555,10 @@ def mem_tie(ctx, tie_fail):
         stop = start + (L if "zig" not in wl else 0)
         peak = int(f.get("peak", 0))
         sq = math.isqrt(stop)
-        # ~8 bytes per sieving prime + bucket pool slack, sieve array and pre-sieve buffers per thread
-        bound = int(24 * sq / max(1.0, math.log(sq) - 1.1)) + th * (3 * kib * 1024 + (1 << 20)) + (2 << 20)
+        # ~8 bytes per sieving prime + bucket pool slack, sieve array and pre-sieve buffers - all of it PER THREAD: every
+        # worker owns its sieving primes (the property's bound depends on the thread count)
+        per_prime = 24 if th == 1 else 12 * th
+        bound = int(per_prime * sq / max(1.0, math.log(sq) - 1.1)) + th * (3 * kib * 1024 + (1 << 20)) + (2 << 20)
         if wl in ("iterbwd", "iterzig", "citerzig"):
             chunk = max(2 * sq, 524288 * int(math.log(max(10, stop))))
             bound += int(8 * 1.3 * chunk / (math.log(stop) - 1.1)) + (1 << 20)
